@@ -151,6 +151,7 @@ type SrvMonitor struct {
 	idOfMac   map[string]string
 	macOfID   map[string]string
 	optProp   string // additionally report option mismatches under this property (C09 in the burst stream)
+	Name      string // stream name recorded in findings (default "srvseq")
 	respTable map[uint32]*Responder
 }
 
@@ -159,7 +160,14 @@ func NewSrvMonitor(c *SrvConf, s *Stream, cfgLine string) *SrvMonitor {
 }
 
 func (m *SrvMonitor) fail(prop, sig, what, observed string) {
-	m.s.Find(Finding{Property: prop, Signature: sig, Stream: "srvseq", What: what, Config: m.cfgLine, Ops: append([]string(nil), m.hist...), Observed: observed})
+	m.s.Find(Finding{Property: prop, Signature: sig, Stream: m.streamName(), What: what, Config: m.cfgLine, Ops: append([]string(nil), m.hist...), Observed: observed})
+}
+
+func (m *SrvMonitor) streamName() string {
+	if m.Name != "" {
+		return m.Name
+	}
+	return "srvseq"
 }
 
 func (m *SrvMonitor) staticOf(mac net.HardwareAddr) net.IP {
@@ -347,6 +355,16 @@ func (m *SrvMonitor) Step(trx int64, frame []byte, obs Obs, op string) {
 			}
 			// ---- C07: options reflect the configuration
 			m.checkOptions(rp, q)
+			// ---- C07: the advertised lease time is the time the address stays reserved — nobody else is
+			// offered or acknowledged it before the time announced in the holder's latest ACK has run out
+			if consistent {
+				for _, g := range m.holder(a, rp.At) {
+					if g.ack && g.id != id && !m.bad[g.id] {
+						m.fail("C07", "reserved-shorter-than-advertised", "an address was offered/acknowledged to another client before the lease time advertised to its holder had elapsed",
+							fmt.Sprintf("%s to %s at %d; %s was acknowledged it at %d for %ds", rp.Yiaddr, id, rp.At, g.id, g.sent, g.ttl/1e9))
+					}
+				}
+			}
 			// ---- C01
 			if rp.Type == 5 && consistent {
 				for _, g := range m.holder(a, rp.At) {
@@ -488,6 +506,9 @@ func (m *SrvMonitor) Step(trx int64, frame []byte, obs Obs, op string) {
 					sig, what = "offer-not-held", "a REQUEST for an address offered within the hold time was refused"
 				}
 				m.fail(prop, sig, what, fmt.Sprintf("class=%s want=%s", class, want))
+				if sure != nil && sure.ack {
+					m.fail("C07", "advertised-lease-not-honoured", "a REQUEST for the leased address was refused before the advertised lease time had elapsed", fmt.Sprintf("class=%s want=%s acked at %d for %ds", class, want, sure.sent, sure.ttl/1e9))
+				}
 			}
 		}
 	}
